@@ -171,4 +171,54 @@ WhySnapshot(obs, exp) ==
   ELSE IF obs.h # exp.h THEN "CellMatrix"
   ELSE IF obs.pos # exp.pos THEN "PositionsById"
   ELSE ""
+(***************************************************************************)
+(* Row-wise formulation of the same verdict, for frames with many atoms.   *)
+(* Parse places every atom by searching its line (RowOf: quadratic in the  *)
+(* particle number).  The same statement read the other way round is       *)
+(* linear: the ids of the n atom lines are a permutation of 1..n, and for  *)
+(* EVERY LINE the snapshot holds, at that line's id, the line's type and   *)
+(* the position the line encodes.  MC_LammpsDump checks on its whole scope *)
+(* that both formulations give the same verdict (InvRowwiseAgrees), for    *)
+(* correct and for corrupted observations; the trace specification uses    *)
+(* this one for large frames (size-dependent code paths of the reader).    *)
+(***************************************************************************)
+FrameHead(lines, cur, ndim) ==
+  LET ln(k)   == lines[cur + k]
+      tri     == IF "xy" \in Range(ln(5)) THEN 1 ELSE 0
+      b(k)    == ln(5 + k)
+      xy      == IF tri = 1 THEN Val(b(1)[3]) ELSE 0
+      xz      == IF tri = 1 THEN Val(b(2)[3]) ELSE 0
+      yz      == IF tri = 1 THEN Val(b(3)[3]) ELSE 0
+      lob     == [k \in 1..3 |-> Val(b(k)[1])]
+      hib     == [k \in 1..3 |-> Val(b(k)[2])]
+      lo      == << lob[1] - Min4(0, xy, xz, xy + xz), lob[2] - Min2(0, yz), lob[3] >>
+      hi      == << hib[1] - Max4(0, xy, xz, xy + xz), hib[2] - Max2(0, yz), hib[3] >>
+      len     == [k \in 1..3 |-> hi[k] - lo[k]]
+      names   == SubSeq(ln(9), 3, Len(ln(9)))
+  IN  [ ts |-> ln(2)[1][1], n |-> ln(4)[1][1], tri |-> tri, lob |-> lob, hib |-> hib, lo |-> lo, hi |-> hi, len |-> len,
+        hrows |-> << <<len[1], 0, 0>>, <<xy, len[2], 0>>, <<xz, yz, len[3]>> >>,
+        style |-> IF "xs" \in Range(names) THEN "xs" ELSE IF "xu" \in Range(names) THEN "xu" ELSE "x" ]
+RowPos(hd, row, ndim) ==
+  [k \in 1..ndim |->
+     IF hd.style = "xu" THEN Val(row[2 + k])
+     ELSE IF hd.style = "x"
+          THEN (IF hd.tri = 1 THEN Val(row[2 + k]) ELSE Wrap1(Val(row[2 + k]), hd.lo[k], hd.hi[k], hd.len[k]))
+          ELSE hd.lo[k] + SumSeq([j \in 1..ndim |-> (row[2 + j][1] * hd.hrows[j][k]) \div row[2 + j][2]])]
+WhySnapshotRows(obs, lines, cur, ndim) ==
+  LET hd   == FrameHead(lines, cur, ndim)
+      n    == hd.n
+      ids  == [m \in 1..n |-> lines[cur + 9 + m][1][1]]
+  IN  IF obs.exact # 1 THEN "ValuesOnTheFileLattice"
+      ELSE IF obs.ts # hd.ts THEN "Timestep"
+      ELSE IF obs.n # n \/ Len(obs.types) # n \/ Len(obs.pos) # n THEN "ParticleCount"
+      ELSE IF Cardinality(Range(ids)) # n \/ \E m \in 1..n : ids[m] \notin 1..n THEN "MalformedFile:AtomIds"
+      ELSE IF \E m \in 1..n : obs.types[ids[m]] # lines[cur + 9 + m][2][1] THEN "TypesById"
+      ELSE IF obs.boxlength # [k \in 1..ndim |-> hd.len[k]] THEN "BoxLength"
+      ELSE IF obs.bounds # [k \in 1..ndim |-> <<hd.lob[k], hd.hib[k]>>] THEN "Bounds"
+      ELSE IF obs.real # (IF hd.tri = 1 THEN [k \in 1..ndim |-> <<hd.lo[k], hd.hi[k]>>] ELSE << >>) THEN "RealBounds"
+      ELSE IF obs.h # [i \in 1..ndim |-> [k \in 1..ndim |-> IF hd.tri = 1 THEN hd.hrows[i][k] ELSE IF i = k THEN hd.len[i] ELSE 0]]
+           THEN "CellMatrix"
+      ELSE IF \E m \in 1..n : obs.pos[ids[m]] # RowPos(hd, lines[cur + 9 + m], ndim) THEN "PositionsById"
+      ELSE ""
+NextCur(lines, cur) == cur + FrameLen(lines[cur + 4][1][1])
 =============================================================================
